@@ -3,12 +3,12 @@
 from __future__ import annotations
 
 
-def positive_examples(pid):
+def positive_examples(pid, root="/repo"):
     try:
         from .selftest import positive
     except ImportError:
         return []
-    return positive.run(pid)
+    return positive.run(pid, root)
 
 
 def run_selftests(pid, root, ana):
